@@ -61,6 +61,8 @@ pub enum Kind {
     RonOptional { style: u8, missing: bool },
     /// channel D
     Value,
+    /// the helpers through `#[serde(with = ..)]` / `deserialize_with` attributes on a user document, JSON and RON
+    Attrs { bytes: [u8; 16], without_optional_alpha: bool },
 }
 
 impl Kind {
@@ -76,6 +78,7 @@ impl Kind {
             Kind::Ron { .. } => "ron",
             Kind::RonOptional { .. } => "ron-optional-alpha",
             Kind::Value => "json-value",
+            Kind::Attrs { .. } => "helpers-as-attributes",
         }
     }
 }
@@ -463,6 +466,13 @@ impl World for C20 {
                 let (fw, fr) = (faults && rng.chance(1, 2), faults && rng.chance(1, 2));
                 (Kind::Ron { style: rng.below(3) as u8, write: gen_io(rng, fw, len_hint), read: gen_io(rng, fr, len_hint) }, false)
             }
+            21 => {
+                let mut bytes = [0u8; 16];
+                for b in bytes.iter_mut() {
+                    *b = *rng.pick(&[0u8, 1, 127, 128, 254, 255, 17, 200, 64, 33]);
+                }
+                (Kind::Attrs { bytes, without_optional_alpha: rng.chance(1, 2) }, false)
+            }
             _ => (Kind::Value, false),
         };
         let mut vals = gen_vals(rng, c, raw);
@@ -681,6 +691,7 @@ impl World for C20 {
                 "optional-alpha-present-ron",
                 "raw-hue-angles",
                 "skip_field-forwarded",
+                "helpers-as-attributes-json-and-ron",
                 "near-miss-of-the-alpha-key-not-taken-for-alpha",
             ],
             expected_faults: vec!["peer:error@call-k(ser)", "peer:error@call-k(de)", "io:short-read", "io:short-write", "io:EINTR", "io:error@byte-k", "io:EOF@byte-k", "io:write-zero"],
@@ -1524,6 +1535,59 @@ fn execute(c: &'static CaseDesc, inner: Option<&'static CaseDesc>, vals: &[f64],
                 Err(e) => {
                     ctx.checked();
                     ctx.fail("optional-alpha-failed", &key, format!("{}: optional-alpha deserialization of the RON document {document:?} failed: {e}", c.name));
+                }
+            }
+        }
+        Kind::Attrs { bytes, without_optional_alpha } => {
+            let key = "helpers-as-attributes".to_string();
+            ctx.state(&(kname, *without_optional_alpha));
+            let doc = cases::attrs::build(bytes);
+            ctx.checked();
+            let text = match serde_json::to_string(&doc) {
+                Ok(t) => t,
+                Err(e) => {
+                    ctx.fail("serialize-failed", &key, format!("a document using the helper attributes failed to serialize: {e}"));
+                    return;
+                }
+            };
+            let want = cases::attrs::expected_json(bytes);
+            if text != want {
+                ctx.fail("helpers-shape", &key, format!("a document using the helper attributes serialized as {text}, expected {want}"));
+                return;
+            }
+            // optionally without the alpha of the `deserialize_with_optional_alpha` field: full opacity expected
+            let mut expect = doc.clone();
+            let mut input = text.clone();
+            if *without_optional_alpha {
+                let alpha_text = format!(",\"alpha\":{}}},\"plain\"", serde_json::to_string(&doc.optional.alpha).unwrap_or_default());
+                input = input.replacen(&alpha_text, "},\"plain\"", 1);
+                expect.optional.alpha = 1.0;
+            }
+            match serde_json::from_str::<cases::attrs::Document>(&input) {
+                Ok(back) if back == expect => {}
+                Ok(back) => {
+                    ctx.fail("round-trip:helpers-as-attributes", &key, format!("JSON {input} came back as {back:?}, expected {expect:?}"));
+                    return;
+                }
+                Err(e) => {
+                    ctx.fail("deserialize-failed", &key, format!("JSON {input} was rejected: {e}"));
+                    return;
+                }
+            }
+            // RON
+            ctx.checked();
+            match ron::to_string(&doc) {
+                Ok(r) => match ron::from_str::<cases::attrs::Document>(&r) {
+                    Ok(back) if back == doc => ctx.probe("helpers-as-attributes-json-and-ron"),
+                    Ok(back) => {
+                        ctx.fail("round-trip:helpers-as-attributes", &key, format!("RON {r} came back as {back:?}"));
+                    }
+                    Err(e) => {
+                        ctx.fail("deserialize-failed", &key, format!("RON {r} was rejected: {e}"));
+                    }
+                },
+                Err(e) => {
+                    ctx.fail("serialize-failed", &key, format!("a document using the helper attributes failed to serialize to RON: {e}"));
                 }
             }
         }
